@@ -9,6 +9,8 @@
 #include <tapkee/utils/time.hpp>
 /* End of Tapkee includes */
 
+#include <limits>
+
 namespace tapkee
 {
 namespace tapkee_internal
@@ -46,8 +48,17 @@ DenseMatrix triangulate(RandomAccessIterator begin, RandomAccessIterator end, Pa
         embedding.row(landmarks[index_iter]).noalias() = landmarks_embedding.first.row(index_iter);
     }
 
+    // pseudo-inverse of the landmark embedding: a direction the landmarks do not spread along (eigenvalue
+    // zero up to rounding) gives coordinate zero; dividing by it would blow the rounding noise up
+    const ScalarType null_eigenvalue = landmarks_embedding.second.cwiseAbs().maxCoeff() * n_landmarks *
+                                       std::numeric_limits<ScalarType>::epsilon();
     for (IndexType i = 0; i < target_dimension; ++i)
-        landmarks_embedding.first.col(i).array() /= landmarks_embedding.second(i);
+    {
+        if (landmarks_embedding.second(i) > null_eigenvalue)
+            landmarks_embedding.first.col(i).array() /= landmarks_embedding.second(i);
+        else
+            landmarks_embedding.first.col(i).setZero();
+    }
 
 #pragma omp parallel
     {
